@@ -401,6 +401,8 @@ def generate(tier, rng):
         c = sgr_case(i)
         if thorough or (i // 3 + seed_shift) % 8 == 0 or len(c["attrs"]) == 1:
             yield c
+            if len(c["attrs"]) <= 2 and (i // 3) % 5 == 0:
+                yield dict(c, toggle=True)
     # ---- writing methods
     idx = 0
     for obj, methods in sorted(OBJ_METHODS.items()):
@@ -485,6 +487,15 @@ def _style_obj(spec, tag=None):
         st.bg(spec["bg"])
     for a in spec["attrs"]:
         getattr(st, a)()
+    if spec.get("toggle"):
+        # setters are idempotent switches: on twice is on, on-on-off is off, whatever was set before
+        for a in ATTRS:
+            if a in spec["attrs"]:
+                getattr(st, a)()
+            else:
+                getattr(st, a)()
+                getattr(st, a)()
+                getattr(st, a)(False)
     return st
 
 
